@@ -10,8 +10,13 @@ import (
 	"verif/harness/internal/core"
 	"verif/harness/internal/props/c01"
 	"verif/harness/internal/props/c02"
+	"verif/harness/internal/props/c03"
+	"verif/harness/internal/props/c04"
+	"verif/harness/internal/props/c05"
 	"verif/harness/internal/props/c13"
 	"verif/harness/internal/props/c15"
+	"verif/harness/internal/props/c16"
+	"verif/harness/internal/props/c17"
 	"verif/harness/internal/props/c18"
 	"verif/harness/internal/props/c20"
 	"verif/harness/internal/tlc"
@@ -20,8 +25,13 @@ import (
 var drivers = map[string]core.Driver{
 	"C01": c01.Driver{},
 	"C02": c02.Driver{},
+	"C03": c03.Driver{},
+	"C04": c04.Driver{},
+	"C05": c05.Driver{},
 	"C13": c13.Driver{},
 	"C15": c15.Driver{},
+	"C16": c16.Driver{},
+	"C17": c17.Driver{},
 	"C18": c18.Driver{},
 	"C20": c20.Driver{},
 }
